@@ -75,3 +75,21 @@ P("C06",
      "metainfo.New / NewInfo on mutated info dictionaries: reject or well-formed; NewPieces/CalculateBlocks terminate; parser allocation <= 64*len+8MiB",
      Q(20000, 4), T(2000000), min_nontrivial_frac=0.4, env={"VERIF_JOURNAL": "1"}),
   ])
+
+P("C07",
+  level_text="Bounded random exploration: torrents whose name and path components are drawn from a hostile alphabet (dot-dot variants, separators, NUL, "
+             "invalid UTF-8, look-alike dots, names around the 255-byte trim limit) are parsed; accepted ones are (a) resolved with the file storage's own rule "
+             "and must stay strictly inside the storage root with distinct paths for distinct data files, and (b) allocated and fully written on a real "
+             "directory tree surrounded by canary files, after which everything outside the root must be byte-identical. Tar archives with the same alphabet and all "
+             "entry types go through readData and the tree outside the destination is diffed.",
+  level_note="Trusted: the tree snapshot/diff in the harness; Linux path semantics (the sandbox OS). Deleting data (RemoveTorrent keepData=false) is not in the "
+             "property statement and is deliberately not exercised with hostile names. The storage root (DataDir[/torrentID]) is taken as the confinement boundary.",
+  technique="property-based testing (rapid): hostile-alphabet generators + filesystem tree-diff oracle",
+  rule="name/path components from a hostile alphabet in single- and multi-file torrents (with name.utf-8/path.utf-8 overrides and padding attributes), both parser "
+       "flag settings; tar entries with hostile names and all type flags; non-trivial = accepted metainfo (or encodable archive) containing >=1 hostile component",
+  assumptions=["an accepted path that resolves to the storage root itself or to one of its ancestors is a directory and cannot be opened as a file (labelled, not a violation)"],
+  units=[
+   U("c07.paths", "c07", "TestPaths", "resolved path of every accepted data file strictly inside the root; distinct files -> distinct paths", Q(30000, 4), T(3000000), min_nontrivial_frac=0.2),
+   U("c07.fs", "c07", "TestPathsFS", "allocate + write on a real tree with canaries; tree outside root unchanged; every file reads back its own bytes", Q(3000, 6), T(200000), min_nontrivial_frac=0.2),
+   U("c07.tar", "ov:torrent", "TestVerifC07Tar", "readData on generated tar archives; tree outside destination unchanged; no symlink created", Q(4000, 4), T(300000), min_nontrivial_frac=0.1),
+  ])
